@@ -730,7 +730,7 @@ def gen_cases(c, scale):
     gen_T(rng, 400 * scale, out)
     gen_U(rng, 120 * scale, out)
     # long URLs make long case lines (the raw engine answers for every pattern x substring): keep their number bounded in the thorough tier
-    gen_R(rng, 120 * scale, out, expect, p_long=0.3 if scale == 1 else 0.9 / scale)
+    gen_R(rng, 120 * scale, out, expect, p_long=0.3 if scale == 1 else 0.6 / scale)
     return out, expect
 
 
@@ -769,6 +769,8 @@ def main():
                       "url_dispatcher::map()'s typed parameter parsing (parse_url_parameter, encoding validation) is represented by a generic handler that declines on a configured group value",
                       "applications_pool: both lists are modelled (pools/factories, then classic asynchronous intrusive_ptr mounts with dead ones purged); pool life-cycle beyond 'the application died' is not"]
     scale = 30 if c.tier == "thorough" else 1
+    if os.environ.get("C20_SCALE"):
+        scale = int(os.environ["C20_SCALE"])      # debugging aid only
 
     c.translate("c20.py")
     proved = c.prove(["Cppcms.C20.Props"], OBLIGATIONS, exe="c20_model")
